@@ -24,6 +24,7 @@ EMIT = [
     "inputs", "repeat(input)", "def f: ., (. + 1 | f); 0 | f", "def f: if . < $N * 10 then ., (. + 1 | f) else empty end; 0 | f", "range(infinite) | select(. % 2 == 0)",
     "range(infinite) | [., 1] | .[0]", "range(infinite) as $x | $x + 1", "label $out | range(infinite) | ., (select(. > $N * 9) | break $out)", "path(range(infinite) | empty, .) , range(infinite)" if False else "range(infinite) | tostring",
     "[1,2,3] | repeat(.[])" if False else "repeat(1, 2)", "first(range(infinite) | select(. > 5)), range(infinite)", "skip(5; range(infinite))", "range(infinite) | try error catch .",
+    "range(infinite) | [.] | .[]", "range(infinite) | {a: .} | .[]", "range(infinite) | [null, .] | .[] | values", "repeat([1] | .[])",
     "range(infinite) | (. as [$a] ?// $a | $a)", "range(infinite) | if . % 3 == 0 then . elif . % 3 == 1 then -. else 0 end", "0 | repeat(. + 1; . + 1)" if False else "0 | recurse(. + 1) | select(. % 7 == 0)",
 ]
 TURNS = [
@@ -45,6 +46,13 @@ TURNS = [
     "def f: (if . < $N then empty else . end) // (. + 1 | f); range(0; 2) | f | select(. < 0)",
     "def f: . as $x | if . < $N then $x + 1 | f else $x end; [0, 1][] | f | select(. < 0)",
     "1 as $one | def f: if . < $N then . + $one | f else . end; 0 | f",
+    # the recursion passes through the LAST element of an iteration: nothing of the finished iteration stays behind
+    "def f: if .[0] >= $N then .[0] else [.[0] + 1] | .[] | [.] | f end; [0] | f",
+    "def f: . as $x | if $x >= $N then $x else {a: ($x + 1)} | .[] | f end; 0 | f",
+    "def f: if . >= $N then . else [. + 1][] | f end; 0 | f",
+    "def f: if . >= $N then . else [0, . + 1] | .[1:][] | f end; 0 | f",
+    "def f: if . >= $N then . else [null, . + 1] | (.[] | values) | f end; 0 | f",
+    "def f: if . >= $N then . else {a: null, b: (. + 1)} | (.[] | values) | f end; 0 | f",
 ]
 # must grow (non-tail positions): negative controls, never reported
 GROW = [
@@ -54,6 +62,7 @@ GROW = [
     "def f: if . < $N then label $l | (. + 1 | f) else . end; 0 | f",
     "def f: if . < $N then (. + 1 | f) | not else . end; 0 | f",
     "def f($a): if . < $N then . + 1 | f($a) else . end; 0 | f(1)",
+    "def f: if . >= $N then . else [. + 1] | .[]? | f end; 0 | f",      # `?` is a try: its handler stays until the body is exhausted
 ]
 COMPONENTS = ["forks", "stack_log", "stack_phys", "scope_log", "scope_phys", "path_log", "path_phys", "values", "offset"]
 
